@@ -214,6 +214,44 @@ _key = st.one_of(_frag_lit.filter(lambda f: f['h']), _frag_non, _frag_non,
                  st.sampled_from(['int', 'obj', 'none']).map(lambda k: {'obj': k}))
 
 
+_OBJ_TEXT = {'int': ('12345678901', 12345678901), 'none': ('None', None)}
+
+
+def _respell(f, render):
+    """Other key fragments that denote the same parsed key as f (expected values known by construction)."""
+    out = []
+    if 'obj' in f:
+        if f['obj'] in _OBJ_TEXT:
+            t, v = _OBJ_TEXT[f['obj']]
+            out.append({'t': t, 'x': tree(v), 'h': True})
+        return out
+    t = f['t']
+    if f['x'] is not None:
+        # a literal: surrounding blanks / parentheses do not change what it denotes
+        out += [{'t': ' ' + t, 'x': f['x'], 'h': f['h']}, {'t': t + ' ', 'x': f['x'], 'h': f['h']}]
+        if '#' not in t:      # (a trailing comment would swallow the closing parenthesis)
+            out.append({'t': '(' + t + ')', 'x': f['x'], 'h': f['h']})
+        if 'str' in f['x'] and f['x']['str'] not in _LITERAL_LOOKING and not _looks_literal(f['x']['str']):
+            out.append({'t': f['x']['str'], 'x': None, 'h': True})        # the bare text, which is not a literal
+        if render != 'strings':
+            for kind, (ot, ov) in _OBJ_TEXT.items():
+                if f['x'] == tree(ov):
+                    out.append({'obj': kind})
+    elif t and not _looks_literal(t):
+        # a non-literal text stays itself: the quoted literal denotes the same key
+        out += [{'t': repr(t), 'x': tree(t), 'h': True}, {'t': ' ' + repr(t), 'x': tree(t), 'h': True}]
+    return out
+
+
+_LITERAL_LOOKING = set()
+
+
+def _looks_literal(text):
+    """Could this text be a literal?  Conservative syntactic test that does not use any parser: only plain words made of
+    letters that are not literal keywords are declared non-literal."""
+    return not (text.isascii() and text.isalpha() and text not in ('None', 'True', 'False', 'nan', 'inf'))
+
+
 @st.composite
 def _case(draw):
     render = draw(st.sampled_from(['mapping', 'pairs', 'strings', 'strings']))
@@ -227,6 +265,14 @@ def _case(draw):
             if 'obj' in v:
                 v = draw(_frag_lit)
         items.append({'k': k, 'v': v})
+    # repeated keys: the same raw text again, or another spelling that denotes the same key ('a' / "a" / ( 'a' ), 1 / ' 1' / (1))
+    if items and draw(st.integers(0, 2)) == 0:
+        src = draw(st.sampled_from(items))['k']
+        for _ in range(draw(st.integers(1, 2))):
+            k = draw(st.sampled_from([src] + _respell(src, render)))
+            v = draw(_frag_lit if render == 'strings' else _frag)
+            items.insert(draw(st.integers(0, len(items))), {'k': k, 'v': v})
+        items = items[:5]
     sep = draw(st.sampled_from(['=', '=', ':', '==', '->', ' ', ',', 'a', '1']))
     parser = 'default'
     if draw(st.integers(0, 5)) == 0:
@@ -259,6 +305,29 @@ def valid(case):
 
 class _Obj:
     pass
+
+
+_SENT = ('mutated-by-caller',)
+
+
+def _mutate_all(objs, skip, depth=0):
+    """Modify in place every list / dict / set reachable from objs (through tuples too); -> number modified."""
+    n = 0
+    for o in objs:
+        if id(o) in skip or depth > 6:
+            continue
+        if isinstance(o, list):
+            n += 1 + _mutate_all(list(o), skip, depth + 1)
+            o.append(_SENT)
+        elif isinstance(o, dict):
+            n += 1 + _mutate_all(list(o.values()), skip, depth + 1)
+            o[_SENT] = 1
+        elif isinstance(o, set):
+            n += 1
+            o.add(_SENT)
+        elif isinstance(o, tuple):
+            n += _mutate_all(list(o), skip, depth + 1)
+    return n
 
 
 def _mk_obj(kind):
@@ -399,6 +468,21 @@ def _run(case, parse_to_dict, trip):
             if not ok:
                 viol.append(V('wrong-result', f'input {arg!r} kw={shown_kw} custom_parser={custom}: got {got!r}, '
                               f'model (by construction) {model!r}', 'wrong-result'))
+    # the literal a string denotes does not depend on what an earlier caller did with an earlier result: mutate every
+    # mutable container the first call produced (never the caller's own pass-through objects), parse again, compare
+    if got is not None and type(got) is dict and not custom and not viol:
+        passthrough = {id(o) for k, v, _ in raw for o in (k, v) if not isinstance(o, str)}
+        before = [(srepr(a), srepr(b)) for a, b in got.items()]
+        touched = _mutate_all(list(got.values()) + list(got.keys()), passthrough)
+        if touched:
+            try:
+                again = parse_to_dict(arg, **kw)
+                after = [(srepr(a), srepr(b)) for a, b in again.items()]
+            except Exception as e:  # noqa
+                after = repr(e)
+            if after != before:
+                viol.append(V('shared-literal', f'input {arg!r} kw={shown_kw}: first call gave {before!r}; after the caller '
+                              f'modified the containers in that result in place, the same call gave {after!r}', 'shared-literal'))
     # a string item without the separator raises ValueError
     nosep = 'zzz'
     if sep not in nosep:
@@ -423,6 +507,8 @@ def _run(case, parse_to_dict, trip):
         classes.append('separator-repeated')
     if any(TRIP in t for t in texts):
         classes.append('tripwire-referenced')
+    if len(case['items']) > (len(got) if isinstance(got, dict) else 99):
+        classes.append('repeated-key')
     if meta_pairs and any(m is not None for m in meta_pairs):
         classes.append('key-contains-sep(metamorphic)')
     summary = {'arg': repr(arg)[:300], 'result': repr(got)[:300]}
